@@ -6,7 +6,7 @@ import InfluxQL.Lemmas.StmtPieces
 import InfluxQL.Lemmas.StmtExprPieces
 import InfluxQL.Lemmas.SelectPieces
 import InfluxQL.Lemmas.SelectClauses
-import InfluxQL.Lemmas.SelectExplain
+import InfluxQL.Lemmas.SelectCQ
 import InfluxQL.Lemmas.IntLit
 import InfluxQL.Lemmas.RegexRoundTrip
 import InfluxQL.Lemmas.NumberRoundTrip
@@ -2777,6 +2777,61 @@ end
 
 example : (match (runHandler 206 .parseExplainStatement).run (PState.init (explainText true true exSub0) [] []) with
     | .ok (st, _) => st.print == (Statement.explain exSub0 true true).print
+    | _ => false) = true := by decide +kernel
+
+/-! ### CREATE CONTINUOUS QUERY … [RESAMPLE …] BEGIN SELECT … INTO … END -/
+
+/-- The pieces are what `CreateContinuousQueryStatement.String()` writes, for a SELECT of the class. -/
+theorem createContinuousQuery_print (tbl : List (Char × Char)) (n : Nat) (name db : Str) (ev fo : Int) (st : SelectStmt)
+    (h : selOKB tbl n st = true) :
+    (Statement.createContinuousQuery name db st ev fo).print =
+      tx "CREATE CONTINUOUS QUERY" ++ cqText name db ev fo st :=
+  cq_print_eq tbl n name db ev fo st h
+
+/-- **Print → parse, CREATE CONTINUOUS QUERY.** `parseCreateContinuousQueryStatement` on the text printed after the
+keywords `CREATE CONTINUOUS QUERY` — name, `ON` database, `RESAMPLE [EVERY d] [FOR d]` when one of the two durations
+is positive (printed by `FormatDuration`), `BEGIN`, the SELECT statement, `END` —, followed by `k`, returns exactly the
+statement (name, database, source, both durations) and stands before `k`, or the fuel was too small.
+
+The hypotheses `htgt` (there is an `INTO`) and `hcq` (`cqOKB`: a query with calls has a non-zero `GROUP BY time(…)`
+interval and `validate()` accepts the durations) are what the handler checks: every statement it returns satisfies
+them. Partial — the SELECT statement is of the class `selOKB s.lowerTbl n` (exclusions as in
+`selectSub_print_parse_partial`); names are expressible (no NUL, no CR), durations in `0 … MaxInt64` (what
+`ParseDuration` returns). `k` does not continue the keyword `END`. -/
+theorem createContinuousQuery_print_parse_partial (n fuel : Nat) (s : PState) (name db : Str) (ev fo : Int)
+    (st : SelectStmt) (k : Str) (hex1 : Expressible name) (hex2 : Expressible db) (hev : LimOK ev) (hfo : LimOK fo)
+    (hok : selOKB s.lowerTbl n st = true) (htgt : st.target ≠ none) (hcq : cqOKB st ev fo = true) (hk : WordEnd k)
+    (hs : s.Before (cqText name db ev fo st ++ k)) :
+    wp (runHandler (fuel + n + 3) .parseCreateContinuousQueryStatement) s
+      (fun r s' => r = .createContinuousQuery name db st ev fo ∧ RT.Stand s' k) (· = .fuel) :=
+  parseCQ_print n fuel s name db ev fo st k hex1 hex2 hev hfo hok htgt hcq hk hs
+
+/-- Non-vacuity: `CREATE CONTINUOUS QUERY "my cq" ON db0 RESAMPLE EVERY 10m FOR 1h BEGIN SELECT mean(value) INTO
+"my db"..tgt FROM cpu GROUP BY time(5m) END`. -/
+def exCQSel : SelectStmt :=
+  wideSelect ⟨.call "mean".toList [.varRef "value".toList .Unknown], []⟩ [] exTgt [qualSrc ([], [], "cpu".toList)] none
+    [.call "time".toList [.duration 300000000000]] .null .none [] 0 0 0 0 none
+def exCQText : Str := cqText "my cq".toList "db0".toList 600000000000 3600000000000 exCQSel
+
+example : tx "CREATE CONTINUOUS QUERY" ++ exCQText = ("CREATE CONTINUOUS QUERY \"my cq\" ON db0 RESAMPLE EVERY 10m FOR 1h " ++
+    "BEGIN SELECT mean(value) INTO \"my db\"..tgt FROM cpu GROUP BY time(5m) END").toList := by decide +kernel
+
+-- the handler's checks: a FOR duration below the GROUP BY interval is rejected, as is a call without GROUP BY time(…)
+example : cqOKB exCQSel 600000000000 3600000000000 = true ∧ cqOKB exCQSel 0 60000000000 = false ∧
+    cqOKB exSub0 0 0 = false := by decide +kernel
+
+section
+attribute [local irreducible] wp
+example : wp (runHandler 204 .parseCreateContinuousQueryStatement) (PState.init exCQText [] [])
+    (fun st s' => st = .createContinuousQuery "my cq".toList "db0".toList exCQSel 600000000000 3600000000000 ∧
+      RT.Stand s' [eofRune]) (· = .fuel) :=
+  createContinuousQuery_print_parse_partial 1 200 (PState.init exCQText [] []) "my cq".toList "db0".toList 600000000000
+    3600000000000 exCQSel [eofRune] (by decide +kernel) (by decide +kernel) (by decide +kernel) (by decide +kernel)
+    (by decide +kernel) (by decide +kernel) (by decide +kernel) WordEnd.eof (init_before exCQText (by decide +kernel))
+end
+
+example : (match (runHandler 204 .parseCreateContinuousQueryStatement).run (PState.init exCQText [] []) with
+    | .ok (st, _) => st.print == tx "CREATE CONTINUOUS QUERY" ++ exCQText
     | _ => false) = true := by decide +kernel
 
 /-! ## passwords -/
